@@ -48,6 +48,7 @@ type Output struct {
 	Steps     int64             `json:"steps"`
 	Meta      map[string]string `json:"meta,omitempty"`
 	DecKinds  map[string]int    `json:"decision_kinds,omitempty"`
+	Cross     map[string]int    `json:"cross_checked,omitempty"`
 }
 
 func main() {
@@ -66,6 +67,7 @@ func main() {
 		solverBin = flag.String("solver", "z3-new", "solver binary")
 		timeoutMs = flag.Int("timeout", 20000, "per-query timeout (ms)")
 		retryMs   = flag.Int("retry", 120000, "fresh-solver retry budget for unknown answers (ms, 0 = off)")
+		crossN    = flag.Int("crosscheck", 0, "re-check the closing unsat query of every N-th path class with z3 4.8.12 (0 = off)")
 		trackW    = flag.Bool("trackwrites", false, "record write footprints")
 		traceSMT  = flag.String("tracesmt", "", "file to dump SMT text to (worker 0)")
 		deadline  = flag.Int("deadline", 0, "wall-clock budget in seconds (0 = none); run is then incomplete")
@@ -178,7 +180,7 @@ func main() {
 
 	ex := &Explorer{prog: P, entry: entry, cfg: Config{Workers: *workers, MaxDecisions: *maxDec, MaxConcretize: *maxConc, MaxSteps: *maxSteps,
 		MaxPaths: *maxPaths, SolverBin: *solverBin, SolverArgs: solverArgs(*solverBin), TimeoutMs: *timeoutMs, Params: output.Params, Picks: output.Picks,
-		TrackWrites: *trackW, Tally: os.Getenv("GOSYM_TALLY") != "", TraceSMT: *traceSMT, RetryMs: *retryMs}}
+		TrackWrites: *trackW, Tally: os.Getenv("GOSYM_TALLY") != "", TraceSMT: *traceSMT, RetryMs: *retryMs, CrossCheck: *crossN}}
 	if *deadline > 0 {
 		ex.cfg.Deadline = time.Now().Add(time.Duration(*deadline) * time.Second)
 	}
@@ -209,6 +211,7 @@ func main() {
 	}
 	output.Funcs = ex.funcs
 	output.DecKinds = ex.decKinds
+	output.Cross = ex.cross
 	output.Complete = !ex.stopped
 	output.WallS = time.Since(t0).Seconds()
 	writeOut(*out, output)
